@@ -57,7 +57,7 @@ REQUIRED_BRANCHES = ['ineligible_skipped', 'all_eligible', 'nmin_zero', 'conv_ye
                      'rw_share_source_buffer', 'rw_share_same_info_keep', 'rw_share_array_inplace',
                      'form_file', 'form_obj', 'form_list',
                      'op_wp', 'op_wr', 'op_ex', 'op_pl', 'op_pc', 'op_p1', 'op_p2', 'op_fo', 'op_fc', 'additional',
-                     'keep_cuts', 'filter_good', 'filter_bad', 'mem_from_fit', 'mem_from_read', 'seq_len3']
+                     'keep_cuts', 'filter_good', 'filter_bad', 'mem_from_fit', 'mem_from_read', 'seq_len3', 'special_source_name']
 ASSUMPTIONS = ['pickle\'s byte encoding is not modelled: the Lean read-back theorems assume the two codec laws '
                '(load(dump(s)+rest) = (s, rest); load at end of stream = EOFError) for STATES only; the repo\'s own '
                '__getstate__/__setstate__ of FitInfo / Source / Extinction are modelled and proved to round-trip '
@@ -321,7 +321,10 @@ def gen_hist_case(rng, tier, directed=None):
     sources = []
     for i in range(k):
         s = gen_source(rng, pkg, i, rng.randint(3, nb))
-        s['name'] = 's%d' % i
+        # names as catalogues have them, with characters that are special in file names on some systems
+        # (':' '?' '*' '"' '<' '>' '|' and a backslash; not '/', which would change the output path)
+        pats = ['s%d', 'G01%d.5:a', 'IRAS?18%d', 'src*%d', 'HD"%d"', 'l<%d>m', 'a|b%d', 'n\\%d', 's%d']
+        s['name'] = rng.choice(pats[1:8] if (directed and i == 0) else pats) % i
         sources.append(s)
     out_sel = directed.get('out_sel') or rng.choice([['A', 0], ['N', nm], ['N', max(2, nm - 1)], ['F', 1e6],
                                                       ['C', nice(rng, 5., 5e3, 2)]])
@@ -1276,6 +1279,8 @@ def run_hist_case(case, use_model=True):
         else:
             objs = from_file
         branches.add('mem_from_' + case['mem_from'])
+        if any(ch in o.source.name for o in objs for ch in ':?*"<>|\\'):
+            branches.add('special_source_name')
         chi2s = [np.asarray(o.chi2, dtype=float) for o in objs]
         if not all(np.all(np.isfinite(c)) and np.all(np.diff(c) >= 0) for c in chi2s):
             return CaseResult(True, detail='chi2 not finite/sorted: outside the reduction to keep-first-k',
